@@ -7,15 +7,19 @@ import (
 )
 
 type RewriteSpec struct {
-	Dir   string
+	Dir   string   // relative to the repo under test, or absolute
 	Files []string // empty = all non-test files of the package
 	Opt   rewrite.Options
+	// OverlayAs, when set, is the path the rewritten (single) file replaces
+	// instead of its own.
+	OverlayAs string
 }
 
 type TierParams struct {
 	Runs     int // generated plans for the plain flavour (0 = until budget)
 	RaceRuns int
 	Budget   time.Duration
+	Rounds   int // C03: number of generated batches (each needs its own build)
 }
 
 type Spec struct {
@@ -25,6 +29,7 @@ type Spec struct {
 	ModFile      string
 	GoBin        string
 	TestBinary   bool
+	GenN         int // C03: programs per generated batch
 	Rewrites     []RewriteSpec
 	Flavours     []string
 	Quick        TierParams
